@@ -51,6 +51,15 @@ func genC06(t *rapid.T) hx.SessionCase {
 	for b := 0; b < nblocks; b++ {
 		l := fmt.Sprintf("b%d", b)
 		d := rapid.SampledFrom(dirs).Draw(t, l+"-dir")
+		if rapid.IntRange(0, 3).Draw(t, l+"-notdir") == 0 && len(all) > 1 {
+			// open-dir must succeed exactly for existing directories: files, links to files, dangling links and
+			// missing paths must be refused (and leave no listable handle behind)
+			nd := rapid.SampledFrom(all).Draw(t, l+"-nd")
+			if rapid.IntRange(0, 4).Draw(t, l+"-missing") == 0 {
+				nd += "/missing"
+			}
+			reqs = append(reqs, hx.Req{Op: "OPEN_DIR", Path: hx.BStr("/" + nd)}, hx.Req{Op: rapid.SampledFrom([]string{"READ_DIR", "READ_ENTRY", "READ_ENTRY2"}).Draw(t, l+"-after")})
+		}
 		reqs = append(reqs, hx.Req{Op: "OPEN_DIR", Path: hx.BStr(spell(t, d, l))})
 		n := 0
 		if node := tree.Find(d); node != nil {
